@@ -1,4 +1,4 @@
 SPECIFICATION TSpec
-INVARIANTS NoWedgeT NoDuplicateT NoLossT OnlySubscribersT
+INVARIANTS ScopeT NoWedgeT NoDuplicateT NoLossT OnlySubscribersT
 POSTCONDITION TraceAccepted
 CHECK_DEADLOCK FALSE
